@@ -654,6 +654,12 @@ def apply_edit(font, name, a):
 
 
 def _exc_sig(e):
+    """What is compared of an exception: its type and message - except for KeyError, whose "message" is
+    the key: when several keys are missing, which one a loop over a set meets first is not output (seen:
+    subset; subset on MutatorSans raises KeyError('arrowright') or ('arrowup') depending on the hash seed;
+    both replicas and both seeds raise KeyError)."""
+    if isinstance(e, KeyError):
+        return "KeyError"
     return "%s:%s" % (type(e).__name__, str(e)[:80])
 
 
